@@ -11,6 +11,13 @@
 // iteration.  Procs = 0 leaves the scheduler alone.  Timing never enters the judgement: the harness
 // waits on events (bounded), what is judged are counts.
 //
+// Hold (outcomes error, retry): a PARTIAL failure - only the failing process ErrAt ends by itself, every
+// sibling stays inside Run until its context is cancelled (it ends only when the coordinator ends it).
+// The harness lets the failing process go and watches, with a patience of its own (holdPatience; it
+// does not count towards the runner's expiries), whether Execute returns: a session whose siblings are
+// still inside Run when that patience ends is recorded as it stands (processes inside Run, no Stop, no
+// CloseSession, id pending) and then let go.
+//
 // Outcomes: success | error (process ErrAt fails) | silent | timeout | cancel (Phase before | during |
 // entry) | retry (process ErrAt fails with a SubsetError, the first process is Retryable: handleError
 // waits for another start message and runs EVERY process of the batch a second time) | refused (a
@@ -23,6 +30,7 @@ import (
 	"errors"
 	"fmt"
 	"runtime"
+	"sync/atomic"
 	"time"
 
 	"github.com/ChainSafe/sygma-relayer/comm"
@@ -83,6 +91,22 @@ func waitLaunched(procs []*tssfakes.BatchProc, base, want int, done <-chan error
 		}
 		time.Sleep(100 * time.Microsecond)
 	}
+}
+
+// holdWait: the bounded patience of the held cases (6 s; 1.5 s once a held session has been seen
+// not to end) - a session that is still running then is an observation, not a wait of the runner
+// that ran out.
+var holdFailed atomic.Bool
+
+func holdWait(cond func() bool) bool {
+	d := 6 * time.Second
+	if holdFailed.Load() {
+		d = 1500 * time.Millisecond
+	}
+	if p := patience(); p < d {
+		d = p
+	}
+	return tssfakes.WaitFor(d, cond)
 }
 
 func runBatchOnce(c Case, short time.Duration) (Obs, bool) {
@@ -199,6 +223,9 @@ func runBatchOnce(c Case, short time.Duration) (Obs, bool) {
 		if (c.Outcome == "timeout" || c.Outcome == "cancel") && during && i == n-1 {
 			st.Mode = "gate" // somebody has to be inside Run when the session is struck
 		}
+		if c.Hold && i != c.ErrAt {
+			st.Mode = "gate" // ends only when its context is cancelled
+		}
 		if i == c.ErrAt {
 			switch c.Outcome {
 			case "error":
@@ -274,16 +301,38 @@ func runBatchOnce(c Case, short time.Duration) (Obs, bool) {
 			bo.DupRuns, _, bo.DupStops = collect(dp)
 		}
 	}
+	stuck := false
 	switch c.Outcome {
 	case "success", "error":
-		for _, p := range bp {
-			p.ReleaseRound(0)
+		for i, p := range bp {
+			if !c.Hold || i == c.ErrAt {
+				p.ReleaseRound(0)
+			}
 		}
 	case "cancel":
 		cancel()
 	case "retry":
-		for _, p := range bp {
-			p.ReleaseRound(0)
+		for i, p := range bp {
+			if !c.Hold || i == c.ErrAt {
+				p.ReleaseRound(0)
+			}
+		}
+		if c.Hold {
+			// the siblings leave Run only if the failure of ErrAt cancels them
+			stuck = !holdWait(func() bool {
+				if len(done) > 0 {
+					return true
+				}
+				for _, p := range bp {
+					if p.Live() > 0 {
+						return false
+					}
+				}
+				return true
+			})
+		}
+		if stuck {
+			break
 		}
 		// handleError waits for anybody's start message, then runs every process again
 		// (a process that is entered a second time before the second start message exists is not part of
@@ -313,6 +362,12 @@ func runBatchOnce(c Case, short time.Duration) (Obs, bool) {
 			return k >= want && e.comm.Subscribers(sid, comm.TssStartMsg) >= 1
 		})
 		if second && len(done) == 0 && !anomaly() {
+			// the new coordinator's initiate message first: the session answers it with ready - a send of
+			// the RETRY phase (its stream must be released at the end like those of the first attempt)
+			nb := e.led.Count("Bcast", sid)
+			if e.comm.Deliver(sid, comm.TssInitiateMsg, peers[1], []byte{}) > 0 {
+				waitFor(func() bool { return len(done) > 0 || e.led.Count("Bcast", sid) > nb })
+			}
 			e.comm.Deliver(sid, comm.TssStartMsg, peers[1], startMsg)
 			waitLaunched(bp, n, 2*n, done)
 		}
@@ -323,7 +378,51 @@ func runBatchOnce(c Case, short time.Duration) (Obs, bool) {
 		waitFor(func() bool { return len(done) > 0 || e.tracker.TotalLive() == 0 })
 		cancel()
 	}
-	err, back := recvErr(done)
+	ledgerEvs := func() (evs []string) {
+		for _, ev := range e.led.Snapshot() {
+			if ev.SID != sid && ev.Kind != "Unsub" {
+				continue
+			}
+			switch ev.Kind {
+			case "Sub":
+				evs = append(evs, "ESub "+msgName(ev.Msg))
+			case "Unsub":
+				evs = append(evs, "EUnsub "+msgName(ev.Msg))
+			case "Close":
+				evs = append(evs, "EClose")
+			}
+		}
+		return
+	}
+	var err error
+	back := false
+	if c.Hold {
+		if back = !stuck && holdWait(func() bool { return len(done) > 0 }); back {
+			err = <-done
+		} else {
+			// the session as it stands when patience ends: siblings still inside Run, nothing stopped /
+			// released, the id still pending
+			holdFailed.Store(true)
+			o.Note = "Execute did not return while the siblings of the failed process were inside Run"
+			o.Ret, o.LiveAfter = "", e.tracker.TotalLive()
+			o.Evs, o.Led = ledgerEvs(), e.sessLedger(sid)
+			bo.Runs, bo.MaxSim, bo.Stops = collect(bp)
+			bo.PendAfter = true
+			if pend, known := e.pending(sid); known {
+				bo.PendAfter = pend
+			}
+			for _, p := range bp {
+				p.ReleaseAll()
+			}
+			cancel()
+			if _, ok := recvErr(done); !ok {
+				o.Note += "; nor after they were let go"
+			}
+			return o, true
+		}
+	} else {
+		err, back = recvErr(done)
+	}
 	if !back {
 		for _, p := range bp {
 			p.ReleaseAll()
@@ -332,20 +431,9 @@ func runBatchOnce(c Case, short time.Duration) (Obs, bool) {
 	}
 	o.Ret, o.LiveAfter = retClass(err), e.tracker.TotalLive()
 	pend, known := e.pending(sid)
-	for _, ev := range e.led.Snapshot() {
-		if ev.SID != sid && ev.Kind != "Unsub" {
-			continue
-		}
-		switch ev.Kind {
-		case "Sub":
-			o.Evs = append(o.Evs, "ESub "+msgName(ev.Msg))
-		case "Unsub":
-			o.Evs = append(o.Evs, "EUnsub "+msgName(ev.Msg))
-		case "Close":
-			o.Evs = append(o.Evs, "EClose")
-		}
-	}
+	o.Evs = ledgerEvs()
 	bo.Runs, bo.MaxSim, bo.Stops = collect(bp)
+	o.Led = e.sessLedger(sid)
 	o.ReuseOK = e.reuse(sid)
 	if !known {
 		pend = !o.ReuseOK
@@ -448,6 +536,24 @@ func genBatch(r *vgen.Rng, tier string) []Case {
 				}
 			}
 		}
+		// partial failures: exactly ONE process (the first / a middle / the last one) fails - at once or
+		// after having been inside Run - while every sibling stays inside Run until it is cancelled; plain
+		// error (Execute returns it) and SubsetError of a retryable batch (the whole batch runs again)
+		for n := 2; n <= 6; n++ {
+			for _, role := range []string{"coord", "peer"} {
+				for pi, at := range []int{0, n / 2, n - 1} {
+					for _, oc := range []string{"error", "retry"} {
+						if oc == "retry" && rep == 0 && pi != n%3 {
+							continue
+						}
+						m := batchModes(r, n, "gate")
+						m[at] = vgen.Pick(r, []string{"now", "gate"})
+						out = append(out, Case{Kind: "batch", Role: role, Outcome: oc, Phase: "during", NProc: n,
+							Procs: vgen.Pick(r, []int{1, 0}), Modes: m, ErrAt: at, Hold: true})
+					}
+				}
+			}
+		}
 		// the global timeout strikes while the batch runs (a quarter of a second each)
 		for _, n := range []int{2, 5} {
 			out = append(out, Case{Kind: "batch", Role: vgen.Pick(r, []string{"coord", "peer"}), Outcome: "timeout", Phase: "during", NProc: n,
@@ -511,7 +617,7 @@ func coqBatch(c Case, o Obs) string {
 	}
 	return "Batch " + role + " " + oc + " " + ph + " " + vgen.Bool(c.Outcome == "retry") + " " + vgen.Nat(c.NProc) + " " +
 		vgen.List(evs) + " " + nats(b.MaxSim) + " " + ret + " " +
-		vgen.Nat(o.LiveAfter) + " " + vgen.Bool(o.ReuseOK) + " " + dup
+		vgen.Nat(o.LiveAfter) + " " + vgen.Bool(o.ReuseOK) + " " + dup + " " + coqLed(o.Led)
 }
 
 func kindBatch(c Case) string {
@@ -528,6 +634,9 @@ func kindBatch(c Case) string {
 	}
 	if c.Dup {
 		k += "/dup"
+	}
+	if c.Hold {
+		k += "/hold"
 	}
 	return k
 }
